@@ -3,7 +3,7 @@
    may crash up to MaxCrashes times, anywhere (also during recovery).                     *)
 EXTENDS TMCommitPipeline, Json, SequencesExt
 
-CONSTANTS MaxHeight, MaxCrashes, PlanId, EmitSched, MaxAppRollback, MaxTamper
+CONSTANTS MaxHeight, MaxCrashes, PlanId, EmitSched, MaxAppRollback, MaxTamper, InitialHeight
 
 VARIABLES s, act
 vars == <<s, act>>
@@ -16,7 +16,8 @@ Plans == << [txs |-> <<2, 1, 0, 1, 0>>, vu |-> <<1>>, pu |-> <<2>>, retain |-> <
             [txs |-> <<0, 0, 0, 0, 0>>, vu |-> << >>, pu |-> << >>, retain |-> <<0, 0, 0, 0, 0>>, hashc |-> TRUE],
             [txs |-> <<2, 1, 0, 1, 0>>, vu |-> <<1>>, pu |-> <<2>>, retain |-> <<0, 0, 0, 0, 0>>, hashc |-> TRUE],
             [txs |-> <<2, 1, 0, 1, 0>>, vu |-> <<1>>, pu |-> <<2>>, retain |-> <<0, 0, 0, 0, 0>>, hashc |-> FALSE] >>
-Cfg == [maxh |-> MaxHeight, txs |-> Plans[PlanId].txs, vu |-> Plans[PlanId].vu, pu |-> Plans[PlanId].pu,
+\* the node commits MaxHeight blocks, the first one at the genesis InitialHeight
+Cfg == [maxh |-> InitialHeight - 1 + MaxHeight, ih |-> InitialHeight, txs |-> Plans[PlanId].txs, vu |-> Plans[PlanId].vu, pu |-> Plans[PlanId].pu,
         retain |-> Plans[PlanId].retain, hashc |-> Plans[PlanId].hashc]
 
 Abs(x) == IF x < 0 THEN -x ELSE x
